@@ -383,43 +383,80 @@ def warning_conditions(prog, an, rep):
 
 
 def force_wiring(prog, an, rep):
+    """What `force` is when _reset runs for each of the two commands.  The
+    reactor calls handler(job, *words): the words of the comment must not
+    be able to reach `force`."""
     R = 'C15.KWC.force'
     target = need_func(an, CMD + '._reset')
     a = target.node.args
-    d = dict(zip([x.arg for x in a.args][-len(a.defaults):], a.defaults))
-    rep.check(is_const(d.get('force'), False), R, target.qname +
-              ': force defaults to False', target.where(),
-              'force default is %s' % (src(d['force']) if 'force' in d
-                                       else 'missing'))
-    want = {CMD + '.reset': False, CMD + '.force_reset': True}
-    seen = set()
+    pos = [x.arg for x in a.posonlyargs + a.args]
+    pos_defaults = dict(zip(pos[len(pos) - len(a.defaults):], a.defaults))
+    kwonly = {x.arg: d for x, d in zip(a.kwonlyargs, a.kw_defaults)}
+
+    def through_words():
+        """force when the reactor calls _reset(job, *words) itself."""
+        if 'force' in kwonly:
+            d = kwonly['force']
+            return d.value if isinstance(d, ast.Constant) else None
+        if 'force' in pos:
+            if pos.index('force') >= 1:
+                return None     # the first word of the comment lands there
+            return None
+        return None
+
+    def at_call(call):
+        """force for one call of _reset."""
+        v = kw(call, 'force')
+        if v is not None:
+            return v.value if isinstance(v, ast.Constant) else None
+        if any(k.arg is None for k in call.keywords):
+            return None
+        if 'force' in pos:
+            i = pos.index('force')
+            if any(isinstance(x, ast.Starred) for x in call.args[:i + 1]):
+                return None     # *words may reach the parameter
+            if len(call.args) > i:
+                x = call.args[i]
+                return x.value if isinstance(x, ast.Constant) else None
+            d = pos_defaults.get('force')
+            return d.value if isinstance(d, ast.Constant) else None
+        d = kwonly.get('force')
+        return d.value if isinstance(d, ast.Constant) else None
+    rep.check('force' in pos or 'force' in kwonly, R, target.qname +
+              ': takes a force flag', target.where(), '_reset has no force '
+              'parameter')
+    _, cmds = common.reactor_registry(prog, an)
+    for key, want in (('reset', False), ('force_reset', True)):
+        cinfo = cmds.get(key)
+        h = (cinfo or {}).get('handler')
+        rep.evaluated()
+        if h is None:
+            rep.violation(R, 'command %s is registered' % key,
+                          (cinfo or {}).get('where'), 'command %s is %s' % (
+                              key, 'missing' if cinfo is None else
+                              'bound to a handler that cannot be resolved'))
+            continue
+        if h.qname == target.qname:
+            got = [through_words()]
+        else:
+            calls = an.direct_calls(h, Spec.func(target.qname))
+            got = [at_call(c_) for c_ in calls] or ['no call of _reset']
+        rep.check(got == [want], R, 'command %s runs _reset with force=%s' %
+                  (key, want), (cinfo or {}).get('where'),
+                  'command %s (handler %s) runs _reset with force=%s, '
+                  'required %s: %s' % (
+                      key, h.qname, got, want,
+                      'only force_reset may discard manual work' if not want
+                      else 'force_reset must be able to discard it'))
+    # nobody else resets
     for f in prog.all_funcs():
         for call in an.direct_calls(f, Spec.func(target.qname)):
             rep.evaluated()
-            v = kw(call, 'force')
-            if v is None and len(call.args) > 1:
-                v = call.args[1]
-            val = False if v is None else (
-                v.value if isinstance(v, ast.Constant) else None)
-            seen.add(f.qname)
-            rep.check(f.qname in want and val is want[f.qname], R,
-                      '%s calls _reset(force=%s)' % (f.qname, val),
-                      f.where(call), '%s calls _reset with force=%s '
-                      '(only force_reset may discard manual work)' % (
-                          f.qname, src(v) if v is not None else 'default'))
-    rep.check(seen == set(want), R, 'reset and force_reset both go through '
-              '_reset', target.where(), 'callers of _reset: %s' %
-              sorted(seen))
-    _, cmds = common.reactor_registry(prog, an)
-    for key in ('reset', 'force_reset'):
-        cinfo = cmds.get(key)
-        rep.evaluated()
-        rep.check(cinfo is not None and cinfo['handler'] is not None and
-                  cinfo['handler'].qname == CMD + '.' + key, R,
-                  'command %s is registered to %s' % (key, key),
-                  (cinfo or {}).get('where'), 'command %s is %s' % (
-                      key, 'missing' if cinfo is None else 'bound to %s' %
-                      getattr(cinfo['handler'], 'qname', None)))
+            handlers = {(cmds.get(k) or {}).get('handler')
+                        for k in ('reset', 'force_reset')}
+            rep.check(f in handlers, R, '%s is a reset command handler' %
+                      f.qname, f.where(call), '%s calls _reset outside the '
+                      'two commands' % f.qname)
 
 
 def own_branches_only(prog, an, rep):
